@@ -1,6 +1,7 @@
 package main
 
 import (
+	"strconv"
 	"fmt"
 	"strings"
 
@@ -264,6 +265,33 @@ func init() {
 				first = int(errs[0].Position.Pos)
 			}
 			fmt.Fprintf(out, "%s => %d %d %s\n", h, len(allErrors(r.err)), first, dumpNode(r.nodes[0], posExact, 0))
+		})
+	}
+	// type-go-all: "hex => <number of errors> [<position of every error>] <number of Bad nodes> <dump of the returned type>"
+	commands["type-go-all"] = func(args []string) {
+		e := entryByName("ParseType")
+		stdinLines(func(line string) {
+			h := strings.TrimSpace(line)
+			r := callEntry(e, "", unhx(h))
+			if r.panicked {
+				fmt.Fprintf(out, "%s => PANIC %s\n", h, r.panicVal)
+				return
+			}
+			var ps []string
+			for _, er := range allErrors(r.err) {
+				if er.Position != nil {
+					ps = append(ps, strconv.Itoa(int(er.Position.Pos)))
+				} else {
+					ps = append(ps, "?")
+				}
+			}
+			nbad := 0
+			for _, ni := range allNodes([]ast.Node{r.nodes[0]}) {
+				if strings.HasPrefix(typeName(ni.node), "Bad") && typeName(ni.node) != "BadNode" {
+					nbad++
+				}
+			}
+			fmt.Fprintf(out, "%s => %d [%s] %d %s\n", h, len(ps), strings.Join(ps, ","), nbad, dumpNode(r.nodes[0], posExact, 0))
 		})
 	}
 	commands["expr-go"] = func(args []string) {
